@@ -82,4 +82,21 @@ def copyTail? (dst src : List UInt8) (off : Int64) : Option (List UInt8 × Int64
     some (t.take n ++ dst.drop n, Int64.ofNat n)
   else none
 
+/-- ninth generation: `X = append(X, v)` with the SAME slice on both sides, `X` rendered as a list:
+    the elements of the result are those of `X` followed by `v`, whether or not Go reallocates. What
+    the rendering does not show is the write into the shared backing array when `len < cap`: faithful
+    while no other live slice shares `X`'s array beyond `len(X)` (notes/LEAF.md, generation 9). -/
+def appendOwn {α : Type} (xs : List α) (v : α) : List α := xs ++ [v]
+
+/-- ninth generation: `n := copy(buf[off:], src)` on a byte-slice PARAMETER `buf`: `buf[off:]` panics
+    unless `0 ≤ off ≤ len(buf)` — the high index of `buf[off:]` is `len(buf)` whatever the capacity —,
+    then `n = min(len(buf) - off, len(src))` bytes are written at `off`. `src` does not overlap
+    `buf` (a field of the receiver or a padding made in the function). -/
+def copyAt? (dst : List UInt8) (off : Int64) (src : List UInt8) : Option (List UInt8 × Int64) :=
+  if 0 ≤ off.toInt ∧ off.toInt.toNat ≤ dst.length then
+    let k := off.toInt.toNat
+    let n := min (dst.length - k) src.length
+    some (dst.take k ++ src.take n ++ dst.drop (k + n), Int64.ofNat n)
+  else none
+
 end ScionTime.Go
